@@ -56,8 +56,12 @@ def run(an, opt_val, cfg):
 
 
 def check(rep, an, tier):
+    # the bounds every clause below speaks of are the REGISTERED ones: registration keeps / replaces exactly what it is given
+    from .C14 import register_bounds_rule
+    register_bounds_rule(rep, an)
     entry = "lsq_linear_underdetermined"
     default = {n: AXES[n][0][0] for n in AXES}
+    selection_option(rep, an, default, entry)
     for label, (mk, sense, reducers, needs_opt) in OPTIONS.items():
         res = run(an, mk(), default)
         res.config = f"opt={label}"
@@ -147,6 +151,36 @@ def check(rep, an, tier):
     rep.require("R-FLOW", 30)
     rep.require("R-FORWARD", 8)
     rep.require("R-QTY", 10)
+
+
+def selection_option(rep, an, default, entry):
+    """underdetermined_opt = (wanted intensities, selected sources): the k-th wanted value belongs to the k-th LISTED source — the
+    selection indexes the variable as the caller gave it (sorting / de-duplicating it re-pairs values and sources)"""
+    from ..values import Val as _Val
+    from ..spec import ONE
+    want = arr("underdetermined_opt", S("SEL"), U_INT)
+    idcs = arr("idcs", S("SEL"), ONE)
+    idcs.tags["indices"] = True
+    opt = _Val(items=[want, idcs], tags={"kind": "tuple", "notnone": True, "notstr": True}, data=frozenset({"underdetermined_opt", "idcs"}))
+    res = run(an, opt, default)
+    res.config = "opt=(vector, indices)"
+    n = 0
+    for po, obj, cons in F.final_problems(res):
+        for at, v, ops in R.walk_atoms(obj):
+            if at != "index":
+                continue
+            iv = v.tag("index_val")
+            if iv is None or "idcs" not in {o.split("|")[0] for o in iv.flat().data}:
+                continue
+            n += 1
+            node = obj.tag("node")
+            rep.check("R-FLOW", "option (values, sources): the selection keeps the caller's order", not iv.tag("sorted"), where=F.where_po(po),
+                      construct="x_[idcs] in the secondary objective", entry=entry, config=res.config,
+                      msg="the selected source indices are sorted / de-duplicated (np.unique, np.sort) before they index the variable: the k-th "
+                          "wanted intensity is then paired with a different source whenever the caller's list is not ascending")
+    if not n:
+        rep.undecided("R-FLOW", "option (values, sources): the selection keeps the caller's order", where=res.fn.loc(),
+                      construct="x_[idcs] in the secondary objective", entry=entry, config=res.config)
 
 
 def var_structure(rep, res, expr, where, text, entry):
